@@ -25,6 +25,8 @@
 //	n<r> p<r> e<r>=<k>   it.Next() / it.Prev() / it.Seek(k) on register r   ("!" if the result is not the receiver)
 //	N<r> P<r>            for ; it.IsValid(); it.Next()/Prev(): entries visited (at most Len+2), then final IsValid
 //
+//	B.. D.. Q<s>         (M lines only) bulk Set / bulk Delete / probe of every key: see scale.go
+//
 // items  s,d: 0/1   c: -   g: <Get>,<GetOK value>,<ok>   l: n   k: nil | k,k,...   t: the string, ' ' as '_'
 //
 //	iterator ops: state of every assigned register, '/'-separated, each <IsValid>,<Key>,<Value>
@@ -34,6 +36,7 @@
 package main
 
 import (
+	"fmt"
 	"math"
 	"strconv"
 	"strings"
@@ -163,7 +166,8 @@ var strCodec = codec[string]{
 	poison: "POISON",
 }
 
-func run[K, V any](opsField string, zero bool, mk func() omap.Map[K, V], kc codec[K], vc codec[V]) string {
+func run[K, V any](opsField string, zero bool, mk func() omap.Map[K, V], kc codec[K], vc codec[V],
+	macro func(h omap.Map[K, V], op string) (item string, handled, edited bool)) string {
 	var items []string
 	res := tr.Guard(20*time.Second, func() {
 		var m omap.Map[K, V]
@@ -208,6 +212,15 @@ func run[K, V any](opsField string, zero bool, mk func() omap.Map[K, V], kc code
 			if op == "" {
 				items = append(items, "?")
 				continue
+			}
+			if macro != nil { // B, D, Q: thousands of Sets / Deletes / lookups and iterator moves, one item each
+				if it, handled, ed := macro(h, op); handled {
+					if ed {
+						edited()
+					}
+					items = append(items, it)
+					continue
+				}
 			}
 			arg := op[1:]
 			switch op[0] {
@@ -350,19 +363,21 @@ func exec(in string) string {
 	}
 	zero := f[2] != "n"
 	if f[0] == "M" {
+		if f[1] == "n" {
+			return run(opsField, zero, func() omap.Map[int, int] { return omap.New[int, int]() }, intCodec, intCodec, intMacro(nil))
+		}
+		ncmp := new(int) // calls of the comparator (the depth orders of the D operation read it)
+		base := cmpFor(f[1])
 		return run(opsField, zero, func() omap.Map[int, int] {
-			if f[1] == "n" {
-				return omap.New[int, int]()
-			}
-			return omap.NewFunc[int, int](cmpFor(f[1]))
-		}, intCodec, intCodec)
+			return omap.NewFunc[int, int](func(a, b int) int { *ncmp++; return base(a, b) })
+		}, intCodec, intCodec, intMacro(ncmp))
 	}
 	return run(opsField, zero, func() omap.Map[string, string] {
 		if f[1] == "n" {
 			return omap.New[string, string]()
 		}
 		return omap.NewFunc[string, string](strCmpFor(f[1]))
-	}, strCodec, strCodec)
+	}, strCodec, strCodec, nil)
 }
 
 // ---------------------------------------------------------------- generation
@@ -500,6 +515,118 @@ func (x *gen) customCmp() (string, []string) {
 		return "R" + strconv.Itoa(3+r.Intn(20)), []string{"custom-comparator", "coarser-than-identity", "comparator-magnitudes"}
 	default:
 		return tr.Pick(r, magCmps), []string{"custom-comparator", "comparator-magnitudes"}
+	}
+}
+
+// scaleSize: a size around a power of two, 2^k-1, 2^k or 2^k+1
+func scaleSize(r *tr.Rand, kmin, kmax int) int {
+	return 1<<(kmin+r.Intn(kmax-kmin+1)) + r.Intn(3) - 1
+}
+
+func (x *gen) bigMaps() {
+	// (tr.Rand streams of different seeds are shifts of one sequence and often fall into step after a
+	// few thousand draws: this section draws from a stream whose offset is a scrambled function of the seed)
+	g, r := x.g, tr.NewRand(tr.NewRand(x.g.Seed).Uint64()^0xC04B16)
+	pats := "adzrib"
+	orders := "lhoibBreE"
+	adversarial := map[byte]string{'a': "lbe", 'd': "hbE", 'z': "oib", 'r': "rbB", 'i': "oib", 'b': "lhB"}
+	count := 0
+	sizeFor := func() int {
+		count++
+		if g.Thorough() {
+			if count%8 == 0 {
+				return scaleSize(r, 12, 13)
+			}
+			return scaleSize(r, 8, 11)
+		}
+		if count%18 == 7 {
+			return scaleSize(r, 12, 12)
+		}
+		if count%6 == 3 {
+			return scaleSize(r, 11, 11)
+		}
+		return scaleSize(r, 8, 10)
+	}
+	emitOne := func(pat, ord byte, n int, cmps string) {
+		var ops []string
+		at := func() string { // a fifth of the operations through the copy of the Map value
+			if r.Chance(1, 5) {
+				return "@"
+			}
+			return ""
+		}
+		probeOp := func(size int) {
+			s := 1 + r.Intn(4)
+			if size > 1100 {
+				s = 1
+			}
+			ops = append(ops, at()+"Q"+strconv.Itoa(s))
+		}
+		// explicit iterator sessions: the keys are lo+3j; the survivors are not known to the generator
+		// without running the map, so the targets are spread over the whole range
+		session := func() {
+			for _, tgt := range []int{-5, 0, 3 * n / 2, 3*n/2 + 1, 3 * (n - 1), 3*n + 5, 3 * r.Intn(n), 3*r.Intn(n) + 2} {
+				ks := strconv.Itoa(tgt)
+				ops = append(ops, at()+"S0="+ks, "n0", "n0", "p0", "p0", "p0", at()+"g"+ks, "e0="+ks, "p0", "S1="+ks, "p1", "e1="+ks, "n1")
+			}
+			ops = append(ops, "F0", "p0", "F0", "n0", "L1", "n1", "L1", "p1", "l")
+		}
+		tags := []string{"big-map", "big-grow-" + string(pat), "big-shrink-" + string(ord)}
+		if n >= 1023 {
+			tags = append(tags, "big-1023-or-more")
+		}
+		if n >= 4095 {
+			tags = append(tags, "big-4095-or-more")
+		}
+		ops = append(ops, fmt.Sprintf("%sB%c:0:%d:3:%d", at(), pat, n, r.Intn(100000)))
+		probeOp(n)
+		for _, fr := range []int{2, 4, 8, 16} {
+			ops = append(ops, fmt.Sprintf("%sD%c:%d:%d", at(), ord, n/fr, r.Intn(100000)))
+			probeOp(n / fr)
+			if fr == 4 || fr == 16 {
+				session()
+			}
+		}
+		// regrow: new keys between the survivors, and the survivors' values overwritten
+		ops = append(ops, fmt.Sprintf("%sB%c:1:%d:3:%d", at(), "adzr"[r.Intn(4)], n/2, r.Intn(100000)))
+		ops = append(ops, fmt.Sprintf("%sB%c:0:%d:6:%d", at(), "adzr"[r.Intn(4)], n/2, r.Intn(100000)))
+		probeOp(n)
+		session()
+		g.Emit("M "+cmps+" n "+strings.Join(ops, ";"), true, tags...)
+	}
+	custom := func() string { return tr.Pick(r, []string{"r", "a", "t", "h", "A", "D", "x", "X"}) }
+	cmpOf := func() string {
+		if r.Chance(1, 3) {
+			return custom()
+		}
+		return "n"
+	}
+	for pi := 0; pi < len(pats); pi++ {
+		pat := pats[pi]
+		if g.Thorough() {
+			for oi := 0; oi < len(orders); oi++ {
+				emitOne(pat, orders[oi], sizeFor(), cmpOf())
+				emitOne(pat, orders[oi], sizeFor(), cmpOf())
+			}
+			for j := 0; j < 4; j++ { // the real-depth orders need a comparator given to NewFunc (its calls are counted)
+				emitOne(pat, "sssp"[j], sizeFor(), custom())
+			}
+			continue
+		}
+		// quick: the real shallow-first order; an order that keeps the keys this growth pattern puts deepest;
+		// one order at random (for random growth: one that removes from the ends or from the middle)
+		adv := adversarial[pat]
+		emitOne(pat, 's', sizeFor(), custom())
+		emitOne(pat, adv[r.Intn(len(adv))], sizeFor(), cmpOf())
+		if pat == 'r' {
+			emitOne(pat, "oilh"[r.Intn(4)], sizeFor(), cmpOf())
+			emitOne(pat, "oilh"[r.Intn(4)], sizeFor(), "n")
+		} else {
+			emitOne(pat, (orders + "sp")[r.Intn(len(orders)+2)], sizeFor(), custom())
+		}
+	}
+	for j := 0; j < 3; j++ {
+		emitOne("rid"[j], 's', sizeFor(), custom())
 	}
 }
 
@@ -684,5 +811,11 @@ func main() {
 				cmps := []string{"n", "a", "t", "x"}[i%4]
 				x.g.Emit("M "+cmps+" n "+strings.Join(ops, ";"), true, "bulk-load")
 			}
+			// 6. big maps: grow to a few hundred .. a few thousand keys (sizes around powers of two), shrink to
+			// 1/2, 1/4, 1/8, 1/16 of the peak (the tree below is rebuilt only when it falls under about 1/8 of
+			// its peak), regrow; after every stage from EVERY key: Seek, GetOK/Get, Next and Prev steps,
+			// Iter.Seek, Seek of the absent key just above, and full First/Next and Last/Prev sweeps; explicit
+			// iterator sessions at the ends and in the middle
+			x.bigMaps()
 		})
 }
